@@ -21,7 +21,7 @@ REQUIRED_CLASSES = ["ok"]
 RULE = ("all 48 orientation codes x RAS sizes x chunk sizes x pixel kinds "
         "{grey uint8, grey uint16, RGB uint8, two directories = 2 channels, "
         "RGB + grey directory = 4 channels, an 8-bit and a 16-bit directory in either order} x file names {zero-padded, 12 "
-        "slices with un-padded numbers}; 16-bit slices into an 8-bit dataset "
+        "slices with un-padded numbers}; 16-bit slices into an 8-bit dataset; a share of the cases through the console script main(argv) "
         "x storage {flat no-gzip, deep gzip, sharded(1,1,0) for cubic "
         "chunks}, plus label stacks stored as compressed_segmentation for "
         "all 48 codes, also with 2 and 3 channels sharing their label sets (quick: 2 sizes x 2 chunk sizes x 2 pixel kinds x 1-2 "
@@ -196,10 +196,26 @@ def _eval_in(col, case, d):
     nontriv = 1 if (code != "RAS" or groups >= 2) else 0
     sandbox.install_atexit_capture()
     try:
-        with sandbox.quiet():
-            s2p.convert_slices_in_directory([Path(p) for p in dirs], dest,
-                                            code, options=opts)
-            errs = sandbox.run_captured_exit_handlers()
+        if case.get("via_cli"):
+            # the console script (argument parsing and defaults included);
+            # "RAS" is its default orientation and is then not passed
+            argv = [str(p) for p in dirs] + [dest]
+            if code != "RAS":
+                argv += ["--input-orientation", code]
+            argv += (["--flat"] if opts["flat"] else []) + (
+                [] if opts["gzip"] else ["--no-gzip"])
+            r = sandbox.run_cli("slices_to_precomputed", argv)
+            if r.exc is not None:
+                raise r.exc
+            if r.status:
+                raise RuntimeError("exit status %r: %s" % (r.status,
+                                                           r.err[-200:]))
+            errs = list(r.exit_errors)
+        else:
+            with sandbox.quiet():
+                s2p.convert_slices_in_directory([Path(p) for p in dirs],
+                                                dest, code, options=opts)
+                errs = sandbox.run_captured_exit_handlers()
         if errs:
             raise errs[0]
     except Exception as exc:
@@ -323,6 +339,15 @@ def cases(tier):
         out.append({"code": code, "size": [4, 3, 5], "chunk": [2, 2, 2],
                     "pixels": "uint16", "storage": "flat-nogzip",
                     "dataset_type": "uint8"})
+    # through the console script
+    for code in codes:
+        i = codes.index(code)
+        if tier == "quick" and i % 8 != 3 and code != "RAS":
+            continue
+        out.append({"code": code, "size": [4, 3, 5], "chunk": [2, 2, 2],
+                    "pixels": "uint8" if i % 2 else "two-dirs",
+                    "storage": ("flat-nogzip", "deep-gzip", "sharded")[i % 3],
+                    "via_cli": True})
     # quick also covers the other two pixel kinds on a few codes
     if tier == "quick":
         for code in ("RAS", "LPI", "SRA", "IPL", "ASR", "PIR"):
